@@ -542,15 +542,34 @@ def config_child_stream(chk, S, wd):
                     variants += [(envt, rundir, numprocs, start, sd) for sd in (None, rundir, wd)]
             else:
                 variants.append((envt, dirt, numprocs, start, None))
-    for (envt, dirt, numprocs, start, supdir) in variants:
+    variants = [v + ('none', None, False) for v in variants]
+    # which server URL the child is told: the program's own serverurl, else the unix socket, else the inet
+    # server, else nothing (SUPERVISOR_SERVER_URL absent)
+    for servers in ('none', 'unix', 'inet', 'both'):
+        for purl in (None, 'AUTO', 'http://explicit.example:9'):
+            variants.append((CONF_TEMPLATES[0][0], '%(here)s', 2, 0, None, servers, purl, False))
+    # a program adopted by a [group:g] section: %(group_name)s is g, also for the child's SUPERVISOR_GROUP_NAME
+    variants.append(('G="%(group_name)s",P="%(program_name)s"', '%(here)s/%(group_name)s', 2, 0, None, 'unix', None, True))
+    variants.append((None, '%(here)s/%(group_name)s/%(program_name)s', 1, 0, None, 'none', None, True))
+    sock = os.path.join(wd, 'cfgtie', 'sup.sock')
+    for (envt, dirt, numprocs, start, supdir, servers, purl, grouped) in variants:
         if True:
+            gname = 'g' if grouped else 'w'
+            want_fallback = {'none': None, 'unix': 'unix://%s' % sock, 'inet': 'http://127.0.0.1:9009',
+                             'both': 'unix://%s' % sock}[servers]
+            want_purl = None if purl in (None, 'AUTO') else purl
             lines = ['[supervisord]', 'logfile=%s/s.log' % wd, 'pidfile=%s/s.pid' % wd, 'childlogdir=%s' % wd] + \
-                    (['directory=%s' % supdir] if supdir else []) + [
+                    (['directory=%s' % supdir] if supdir else []) + \
+                    (['[inet_http_server]', 'port=127.0.0.1:9009'] if servers in ('inet', 'both') else []) + \
+                    (['[unix_http_server]', 'file=%s' % sock] if servers in ('unix', 'both') else []) + \
+                    (['[group:g]', 'programs=w'] if grouped else []) + [
                      '[program:w]', 'command=/bin/cat -u', 'numprocs=%d' % numprocs, 'numprocs_start=%d' % start,
                      'process_name=%(program_name)s_%(process_num)d', 'stdout_logfile=NONE', 'stderr_logfile=NONE',
                      'directory=%s' % dirt]
             if envt is not None:
                 lines.append('environment=%s' % envt)
+            if purl is not None:
+                lines.append('serverurl=%s' % purl)
             text = '\n'.join(lines) + '\n'
             with open(conf, 'w') as f:
                 f.write(text)
@@ -566,6 +585,10 @@ def config_child_stream(chk, S, wd):
                 finally:
                     os.chdir(back)
                 o.minfds = 3
+                if [g_.name for g_ in o.process_group_configs] != [gname]:
+                    chk.violation({'kind': 'unexpected group names from the parser', 'names': [g_.name for g_ in o.process_group_configs],
+                                   'config': text})
+                    continue
                 pconfigs = sorted(o.process_group_configs[0].process_configs, key=lambda pc: pc.name)
                 if [pc.name for pc in pconfigs] != ['w_%d' % n for n in range(start, start + numprocs)]:
                     chk.violation({'kind': 'unexpected process names from the parser', 'names': [pc.name for pc in pconfigs]})
@@ -574,7 +597,7 @@ def config_child_stream(chk, S, wd):
                     n_proc += 1
                     # the reference: every process expands against supervisord's environment, never a sibling's
                     base = dict(('ENV_' + k, v) for k, v in CONF_ENVIRON.items())
-                    base.update({'here': here, 'program_name': 'w', 'group_name': 'w', 'process_num': n, 'numprocs': numprocs})
+                    base.update({'here': here, 'program_name': 'w', 'group_name': gname, 'process_num': n, 'numprocs': numprocs})
                     want_env = {}
                     if envt is not None:
                         for item in envt.split('",'):
@@ -585,12 +608,12 @@ def config_child_stream(chk, S, wd):
                     want_dir = dirt % own
                     world = dict(environ=dict(CONF_ENVIRON), curuid=0, pw=None, groups=[], has_setgroups=True)
                     cfg = dict(name=pc.name, uid=None, file='/bin/cat', argv=['/bin/cat', '-u'], directory=want_dir, umask=None,
-                               environment=want_env, serverurl=None, options_serverurl=None, redirect_stderr=False, minfds=3,
-                               fcgi=False, group='w')
+                               environment=want_env, serverurl=want_purl, options_serverurl=want_fallback,
+                               redirect_stderr=False, minfds=3, fcgi=False, group=gname)
                     paths = []
                     for decisions in ([], [None, None, None, None, ('os', ENOENT)]):
                         orc = S.PathOracle(decisions)
-                        log, ending, k, filename, argv = S.run_child_parsed(pc, 'w', world, orc)
+                        log, ending, k, filename, argv = S.run_child_parsed(pc, o.process_group_configs[0].name, world, orc)
                         problem = None
                         if k.unexpected:
                             problem = 'unmodelled system call %r' % (k.unexpected,)
